@@ -34,6 +34,7 @@ THEOREMS = [
     "BeyondVerif.C04.parseDate_scale_reaches_date",
     "BeyondVerif.C04.parseDate_reading_label_free",
     "BeyondVerif.C04.ccsds_writers_convert_to_time_system",
+    "BeyondVerif.C04.ccsds_segments_own_time_system",
     "BeyondVerif.C04.ccsds_epoch_roundtrip_same_label",
     "BeyondVerif.C04.ccsds_epoch_roundtrip",
     "BeyondVerif.C04.ccsds_reread_within_slack",
@@ -41,6 +42,7 @@ THEOREMS = [
     "BeyondVerif.C04.ccsds_message_labels",
     "BeyondVerif.C04W.ccsds_mixed_label_moves_instant",
     "BeyondVerif.C04W.ccsds_mixed_label_keeps_instant",
+    "BeyondVerif.C04W.foreign_segment_scale_moves_instants",
     "BeyondVerif.C04W.same_day_shortcut_keeps_wrong_record",
     "BeyondVerif.C04W.eop_day_own_scale_depends_on_label",
 ]
@@ -54,6 +56,7 @@ LEVEL_TEXT = ("Lean theorems over C03's faithful integer model of beyond's Date 
               "regenerated from commons.py) with the theorem that the TIME_SYSTEM reaches the constructed date on every format branch and from every reader call site; "
               "every epoch emission site of the OPM/OEM/OMM/TDM writers (regenerated) converts to the message's TIME_SYSTEM, and write-then-read keeps the instant of an epoch "
               "labelled in any scale (exact for UTC/TAI/TT/GPS, 2.5 us with UT1/TDB; fixed by aa1842c, regression witness kept). "
+              "A message of several objects is dumped segment by segment, each under the scale of its own head (regenerated emission sites must take the scale inside the segment's loop turn). "
               "The model is tied to the code by a correspondence on operation HISTORIES of the real Date (construct, +, -, change_scale, copy, DateRange iteration, "
               "comparisons, parse_date) in three EOP environments (real IERS tables, all-zero, the constant mock of the test-suite), and by an oracle sweep of every "
               "date-consuming public operation x 6 labels for the argument date x 6 labels for the epoch on the real API.")
@@ -67,10 +70,12 @@ ASSUMPTIONS = ["instants are at least 2 minutes away from a leap second (documen
                "dates exact to the microsecond; UT1 and TDB offsets rounded to the microsecond as timedelta does",
                "CCSDS epoch texts are ASCII"]
 NOT_COVERED = ["that every public operation consumes its date only through the modelled quantities is checked by the label sweep on the real API, not proved",
+               "per-object memoisation inside propagators (a value derived from the first date re-used for later dates) is outside the Lean model: it is searched by the history oracle only",
                "TDM reading/writing beyond the epochs (participants, units) is C13's"]
 OPEN = []
 RULE = ("oracle: for each operation (SGP4, native SGP4, Kepler, J2, numerical, CW, Sun/Moon, frame conversion, ephemeris interpolation, event detection, "
-        "TLE writing, CCSDS OPM/OEM writing+reading in every legal spelling of the epochs, Date + / - timedelta, DateRange / Ephem iteration) the result for the instant "
+        "TLE writing, CCSDS OPM/OEM/OMM/TDM writing+reading in every legal spelling of the epochs, single objects and lists of objects (one segment each), Date + / - timedelta, "
+        "DateRange / Ephem iteration, and HISTORIES of several instants on one bound object across leap seconds and UTC midnights) the result for the instant "
         "labelled UTC is compared with the result for the same instant in each of the other 5 scales, for the argument date and for the object's epoch; "
         "non-trivial = label differs from UTC; distinct = (operation, instant, labels)")
 
@@ -210,7 +215,9 @@ def writer_epoch_sites():
     """every expression the CCSDS writers format as an epoch (`X.strftime(DATE_FMT…)`, a `{…:{dfmt}}` field of a
     `.format(…, dfmt=DATE_FMT…)` template), per writer function: (file:function, expression text, kind) with kind
       head      — the date that decides TIME_SYSTEM (`O.date` / `O.start` of the message object O, or of a copy of it)
-      converted — `in_scale(<date>, <head>.scale)`, directly or through a local name last assigned from such a call
+      converted — `in_scale(<date>, <head>.scale)` with the head of the SAME segment (the scale expression evaluated inside the
+                  loop turn that prints the segment's TIME_SYSTEM, directly or through a local name assigned there)
+      foreign-scale — `in_scale(<date>, <anything else>)`: converted, but not to the scale this segment's metadata prints
       creation  — `Date.now()` (CREATION_DATE of the header: not an epoch of the message's TIME_SYSTEM)
       raw       — anything else: a date printed in its own scale under the message's TIME_SYSTEM
     Keyed on function name and expression text, no line numbers."""
@@ -233,11 +240,20 @@ def writer_epoch_sites():
         for func in [n for n in ast.walk(tree) if isinstance(n, ast.FunctionDef)]:
             # the message object(s) of this function
             heads = set(_head_scale_param(func, src)) if func.name in meta_funcs else set()
+            meta_lines = []
             for c in ast.walk(func):
                 if isinstance(c, ast.Call) and isinstance(c.func, ast.Name) and c.func.id in meta_funcs:
                     for pos in meta_funcs[c.func.id]:
                         if pos < len(c.args) and isinstance(c.args[pos], ast.Name):
                             heads.add(c.args[pos].id)
+                            meta_lines.append(c.lineno)
+            # the SEGMENT: the innermost loop holding the call that prints this segment's TIME_SYSTEM (one segment per turn);
+            # an epoch belongs to the segment, and may take its target scale, only from inside that loop body
+            loops = [n for n in ast.walk(func) if isinstance(n, (ast.For, ast.While)) and any(n.body[0].lineno <= ln <= n.end_lineno for ln in meta_lines)]
+            seg = min(loops, key=lambda n: n.end_lineno - n.lineno) if loops else None
+
+            def in_segment(line):
+                return seg is None or seg.body[0].lineno <= line <= seg.end_lineno
             assigns = {}
             for n in ast.walk(func):
                 if isinstance(n, ast.Assign):
@@ -261,15 +277,29 @@ def writer_epoch_sites():
             def is_head(node):
                 return isinstance(node, ast.Attribute) and node.attr in ("date", "start") and is_obj(node.value)
 
+            def segment_scale(node, line):
+                """the expression is the scale of THIS segment's head: `<head>.scale` evaluated inside the segment, or a local
+                name last assigned from such an expression inside the segment"""
+                if isinstance(node, ast.Attribute) and node.attr == "scale":
+                    return is_head(node.value) and in_segment(line)
+                if isinstance(node, ast.Name):
+                    before = [(ln, v) for ln, v in assigns.get(node.id, []) if ln <= line]
+                    if before:
+                        ln, v = max(before, key=lambda t: t[0])
+                        return not isinstance(v, ast.Name) and segment_scale(v, ln)
+                return False
+
             def kind_of(node, line):
                 if isinstance(node, ast.Call) and _src(src, node) == "Date.now()":
                     return "creation"
                 if isinstance(node, ast.Call) and isinstance(node.func, ast.Name) and node.func.id == "in_scale":
                     a = node.args
-                    ok = len(a) == 2 and isinstance(a[1], ast.Attribute) and a[1].attr == "scale" and is_head(a[1].value)
-                    return "converted" if ok else "raw"
+                    if len(a) != 2:
+                        return "raw"
+                    # converted to the scale the SAME segment's metadata prints; to any other scale: as bad as not converted
+                    return "converted" if segment_scale(a[1], line) else "foreign-scale"
                 if is_head(node):
-                    return "head"
+                    return "head" if in_segment(line) else "raw"
                 if isinstance(node, ast.Name):
                     before = [(ln, v) for ln, v in assigns.get(node.id, []) if ln <= line]
                     if before:
@@ -336,7 +366,8 @@ def extract_ccsds_dates():
            "/-- every call of `parse_date` in beyond/io/ccsds: (file:function:call text, the scale argument is the message's TIME_SYSTEM?) -/",
            "def parseDateCallSites : List (String × Bool) := [" + ",\n  ".join(f"({_lean_str(w)}, {'true' if o else 'false'})" for w, o in sites) + "]",
            "/-- every expression the writers format as an epoch: (file:function, expression, kind) — head = the date that decides",
-           "TIME_SYSTEM, converted = `in_scale(date, head.scale)`, creation = `Date.now()` of the header, raw = a date in its own scale -/",
+           "TIME_SYSTEM, converted = `in_scale(date, head.scale)` with the head of the same segment, creation = `Date.now()` of the header,",
+           "foreign-scale = converted to another scale than the segment's TIME_SYSTEM, raw = a date in its own scale -/",
            "def writerEpochSites : List (String × String × String) := [" + ",\n  ".join(f"({_lean_str(w)}, {_lean_str(e)}, {_lean_str(k)})" for w, e, k in wsites) + "]",
            "end BeyondVerif.Generated", ""]
     if core.write_if_changed(os.path.join(core.LEAN, "BeyondVerif", "Generated", "CcsdsDates.lean"), "\n".join(txt)):
@@ -783,6 +814,8 @@ def oracle(ctx, widened):
     iteration(out, rng, big)
     ccsds_spellings(out, rng, big)
     ccsds_mixed(out, rng, big)
+    ccsds_segments(out, rng, big)
+    histories(out, rng, cmp, big)
     out.sample({"operation": "Sgp4.propagate", "instant": "tle0+…s", "labels": "6 x 6", "compared_with": "UTC/UTC baseline"})
     return out
 
@@ -1263,3 +1296,158 @@ def ccsds_mixed(out, rng, big):
                             out.fail("ccsds-mixed-scale-epochs" if is_known else f"ccsds-write:{kind}:label-dependent",
                                      "epochs labelled with another scale than the date that decides TIME_SYSTEM are written as clock readings of their own scale: read back, they are other instants",
                                      inp, observed={"moved_s": moved, "read": [str(g) for g in got][:4]}, expected={"moved_s": [0.0] * len(exp), "written": [str(e_) for e_ in exp][:4]})
+
+
+def ccsds_segments(out, rng, big):
+    """messages made of SEVERAL objects: `dumps([ephem1, ephem2, ephem3])` (one OEM segment each, each with its own
+    TIME_SYSTEM) and a TDM over several paths (one segment per path), the labels of the segments drawn independently, and
+    inside a segment the label of the later epochs drawn independently of its first.  Every instant of every segment must
+    be read back; every segment's START_TIME / STOP_TIME, read in that segment's TIME_SYSTEM, must be its first / last"""
+    import re
+    from beyond.dates import Date, timedelta
+    from beyond.io.tle import Tle
+    from beyond.io import ccsds as io_ccsds
+    from beyond.orbits import Ephem
+    from beyond.utils.measures import MeasureSet, Range
+    with real_env("real"):
+        orb0 = Tle(TLES[2]).orbit()
+        t0 = Date(int(orb0.date.mjd) + 3, 40000.0) + timedelta(microseconds=rng.randrange(10**6))
+        labs = list(UNIFORM)
+        combos = [("UTC", "TAI"), ("UTC", "TT", "GPS"), ("TAI", "UTC"), ("TT", "TT", "UTC")] + [tuple(rng.choice(labs) for _ in range(rng.choice([2, 3]))) for _ in range(8 if big else 2)]
+        for heads in combos:
+            inner = [rng.choice([h, h, rng.choice(labs)]) for h in heads]         # label of the later epochs of each segment
+            segs_t = [[t0 + timedelta(seconds=1800 * k + 60 * i) for i in range(5)] for k in range(len(heads))]
+            ephs = [Ephem([relabel(orb0.propagate(d).copy(form="cartesian", frame="EME2000"), h if i == 0 else inn) for i, d in enumerate(ts)])
+                    for ts, h, inn in zip(segs_t, heads, inner)]
+            paths = [["Toulouse", "1998-067A", "Toulouse"], ["Kourou", "1998-067A", "Kourou"], ["Perth", "1998-067A", "Perth"]]
+            tdm = MeasureSet([Range(paths[k], d.change_scale(h if i == 0 else inn), 1000e3 + i) for k, (ts, h, inn) in enumerate(zip(segs_t, heads, inner)) for i, d in enumerate(ts)])
+            for fmt in (("kvn", "xml") if big else (rng.choice(["kvn", "xml"]),)):
+                for kind, obj in (("oem-segments", ephs), ("tdm-paths", tdm)):
+                    out.count(key=("ccsds-segments", kind, heads, tuple(inner), fmt), nontrivial=len(set(heads)) > 1, op="ccsds-" + kind, label="/".join(heads))
+                    inp = {"message": kind, "fmt": fmt, "segment_labels": list(heads), "later_epochs_labelled": inner, "first_instant": str(t0)}
+                    fam = f"ccsds-write:{kind}:label-dependent"
+                    try:
+                        txt = io_ccsds.dumps(obj, fmt=fmt)
+                        back = io_ccsds.loads(txt)
+                        back = back if isinstance(back, list) else [back]
+                        got = [[x.date for x in seg] for seg in back]
+                    except Exception as e:  # noqa: BLE001
+                        out.fail(fam, "dumps/loads of a message of several segments raises", inp, observed=repr(e), expected="the instants written")
+                        continue
+                    moved = [[round((g - e).total_seconds(), 6) for g, e in zip(sorted(gs), es)] for gs, es in zip(got, segs_t)]
+                    if [len(g) for g in got] != [len(e) for e in segs_t] or any(abs(m) > 1.5e-6 for seg in moved for m in seg):
+                        out.fail(fam, "a message of several segments, each with its own TIME_SYSTEM: the instants of a segment are not read back (epochs expressed in another scale than the segment's TIME_SYSTEM)",
+                                 inp, observed={"moved_s": moved, "TIME_SYSTEMs": re.findall(r"TIME_SYSTEM(?:\s*=\s*|>)(\w+)", txt)}, expected={"moved_s": [[0.0] * 5] * len(heads), "TIME_SYSTEMs": list(heads)})
+                        continue
+                    # START_TIME / STOP_TIME of every segment, read in that segment's TIME_SYSTEM
+                    tsys = re.findall(r"TIME_SYSTEM(?:\s*=\s*|>)(\w+)", txt)
+                    starts = re.findall(r"START_TIME(?:\s*=\s*|>)([0-9T:.\-]+)", txt)
+                    stops = re.findall(r"STOP_TIME(?:\s*=\s*|>)([0-9T:.\-]+)", txt)
+                    if len(tsys) == len(starts) == len(stops) == len(heads):
+                        bounds = [[round((Date.strptime(a, "%Y-%m-%dT%H:%M:%S.%f", scale=sc) - es[0]).total_seconds(), 6), round((Date.strptime(b, "%Y-%m-%dT%H:%M:%S.%f", scale=sc) - es[-1]).total_seconds(), 6)]
+                                  for sc, a, b, es in zip(tsys, starts, stops, segs_t)]
+                    else:
+                        bounds = None
+                    if tsys != list(heads) or bounds is None or any(abs(m) > 1.5e-6 for bd in bounds for m in bd):
+                        out.fail(fam, "a message of several segments: TIME_SYSTEM / START_TIME / STOP_TIME of a segment do not describe that segment", inp,
+                                 observed={"TIME_SYSTEMs": tsys, "start_stop_moved_s": bounds}, expected={"TIME_SYSTEMs": list(heads), "start_stop_moved_s": [[0.0, 0.0]] * len(heads)})
+
+
+# ---------------------------------------------------------------- histories on ONE object across leap seconds / UTC day boundaries
+
+def tle_at(day_of_year, yy):
+    """the ISS TLE re-dated to noon of the given day (checksum recomputed)"""
+    from beyond.io.tle import Tle
+    name, l1, l2 = TLES[0].splitlines()
+    l1 = l1[:18] + f"{yy:02d}{day_of_year:03d}.50000000" + l1[32:68]
+    l1 += str(Tle._checksum(l1))
+    return Tle("\n".join([name, l1, l2]))
+
+
+def histories(out, rng, cmp, big):
+    """every date-consuming operation driven through a HISTORY on one object — the same bound propagator / ephemeris /
+    body asked for several instants in turn, all given in one non-UTC label, before and after a leap second and before and
+    after an ordinary UTC midnight, in ascending, descending and alternating order, with the real EOP tables — each
+    result compared with the same instant labelled UTC on a fresh object.  (A per-object memo of anything derived from
+    the first date — the shift to UTC, the EOP record, the day number — shows here and nowhere else.)"""
+    import numpy as np
+    from harness.props import C03
+    from beyond.dates import Date, timedelta
+    from beyond.propagators import get_propagator
+    from beyond.propagators.sgp4beta import Sgp4Beta
+    from beyond.env.solarsystem import get_body
+    from beyond.orbits import Ephem, StateVector
+    with real_env("real"):
+        # boundary = 00:00:00 UTC of `mjd`; the TLE is dated noon of the day before
+        cases = [("leap-2017-01-01", 57754, 366, 16), ("leap-2015-07-01", 57204, 181, 15), ("midnight-2016-04-10", 57488, 100, 16)]
+        if not big:
+            cases = [cases[0], rng.choice(cases[1:])]
+        for bname, mjd, doy, yy in cases:
+            leap = bname.startswith("leap")
+            B = Date(mjd, 0.0)
+            tle = tle_at(doy, yy)
+            orb0 = tle.orbit()
+            # instants: the property excludes the 2 minutes around a leap second
+            near = [-150.0, 150.0] if leap else [-20.0, 36.5, -50.0, 70.0]
+            offs = sorted([-7200.0 - rng.randrange(600), -900.0, 900.0, 5400.0 + rng.randrange(600)] + near)
+            orders = {"ascending": offs, "descending": offs[::-1], "alternating": [x for pair in zip(offs[:len(offs) // 2], offs[::-1]) for x in pair]}
+            if not big:
+                orders.pop("alternating")
+            inst = {o_: B + timedelta(seconds=o_) for o_ in offs}
+
+            def sgp4(form="tle", pname="Sgp4"):
+                o = orb0.copy(form=form)
+                o.propagator = get_propagator(pname)()
+                return o
+
+            def beta():
+                b_ = Sgp4Beta(); b_.orbit = orb0
+                return b_
+            eph_pts = [sgp4().propagate(B + timedelta(seconds=300.0 * k)).copy(form="cartesian", frame="EME2000") for k in range(-30, 31)]
+            sv0 = StateVector([7000e3, 100e3, -2000e3, 300.0, 7400.0, 1000.0], B, "cartesian", "EME2000")
+
+            def at(sv, d):
+                sv = sv.copy(); sv.date = d
+                return sv
+            ops = {
+                "Sgp4": (lambda: sgp4(), lambda o, d: o.propagate(d).copy(form="cartesian", frame="TEME"), {}),
+                "Kepler": (lambda: sgp4("keplerian_mean", "Kepler"), lambda o, d: o.propagate(d).copy(form="cartesian", frame="TEME"), {}),
+                "J2": (lambda: sgp4("keplerian_mean", "J2"), lambda o, d: o.propagate(d).copy(form="cartesian", frame="TEME"), {}),
+                "Sgp4Beta": (beta, lambda o, d: o.propagate(d), {}),
+                "Ephem.interpolate": (lambda: Ephem([p.copy() for p in eph_pts]), lambda o, d: o.interpolate(d), {}),
+                "frame-EME2000-ITRF": (lambda: sv0, lambda o, d: at(o, d).copy(frame="ITRF"), {"pos_atol": 0.05}),
+                # the lunar theory takes a Julian date held in one double (resolution 4e-5 s, i.e. 4 cm of Moon motion): a UT1 / TDB
+                # reading 1 µs away may round to the neighbouring double — numerical noise, not a label effect
+                "body-Moon": (lambda: get_body("Moon"), lambda o, d: o.propagate(d), {"vtol_scale": 1100.0, "vel_rtol": 5e-8, "pos_atol": 0.06}),
+            }
+            if leap:
+                # the body's velocity is a central difference over ±1 day of the label's clock: a UTC day holding a leap second
+                # is 86401 s long, a TAI day is not — the documented limitation (leap seconds are not handled), not a label effect
+                ops.pop("body-Moon")
+            if not big:
+                for k in rng.sample([k_ for k_ in ("Kepler", "J2", "Ephem.interpolate", "body-Moon") if k_ in ops], 2):
+                    ops.pop(k)
+            labels = SCALES[1:] if big else ["TAI"] + rng.sample(["TT", "GPS", "UT1", "TDB"], 2)
+            for op, (make, call, tol) in ops.items():
+                ref = {o_: call(make(), inst[o_]) for o_ in offs}            # UTC label, a fresh object per instant
+                for lab in labels:
+                    for oname, seq in orders.items():
+                        obj = make()
+                        for pos_, o_ in enumerate(seq):
+                            d = inst[o_].change_scale(lab)
+                            cmp(f"history-{op}", f"{bname}{o_:+.0f}s#{oname}:{pos_}", lab, "-", (lambda obj=obj, d=d: call(obj, d)), ref[o_],
+                                extra={"boundary": f"{B} ({bname})", "sequence_offsets_s": seq[:pos_ + 1], "order": oname, "date": str(d),
+                                       "what": "one object asked for these instants in turn, all labelled " + lab}, **tol)
+            # iteration of one bound propagator across the boundary, started in each label: every point against a fresh UTC run
+            for lab in labels:
+                for start_off, step in ((-330.0, 60.0), (330.0, -60.0)):
+                    o = sgp4()
+                    start = (B + timedelta(seconds=start_off)).change_scale(lab)
+                    pts = list(itertools.islice(o.iter(start=start, stop=timedelta(seconds=step * 11), step=timedelta(seconds=step)), 40))
+                    for k, p_ in enumerate(pts):
+                        du = p_.date.change_scale("UTC")
+                        if leap and abs((du - B).total_seconds()) < 125:
+                            continue
+                        ref_ = sgp4().propagate(du).copy(form="cartesian", frame="TEME")
+                        cmp("history-Sgp4.iter", f"{bname}{start_off:+.0f}s/{step:+.0f}s:{k}", lab, "-", p_.copy(form="cartesian", frame="TEME"), ref_,
+                            extra={"boundary": f"{B} ({bname})", "start": str(start), "step_s": step, "point": k, "date": str(p_.date)})
